@@ -266,10 +266,13 @@ pub fn scenario(seed: u64, p: &Params, rep: &mut Report) {
         let mut ds: Vec<u64> = Vec::new();
         let n = 1 + rng.usize(5);
         while ds.len() < n {
-            let d = match rng.below(8) {
+            let d = match rng.below(9) {
                 0 => 0,
                 1 => 257 + rng.below(1000),
                 2 => u64::MAX - rng.below(3),
+                // the distance of an occupied bucket with one high bit set: equal to it after any
+                // narrowing of the integer
+                3 => pool.buckets[rng.usize(pool.buckets.len())].0 + (1u64 << *rng.pick(&[8u32, 16, 24, 32, 33, 40, 48, 56, 63])),
                 _ => pool.buckets[rng.usize(pool.buckets.len())].0,
             };
             if !ds.contains(&d) {
